@@ -243,7 +243,9 @@ class Proxy:
         # --ports flag can also use 0 as value for ephemeral port selection.
         # Here, we override flags.ports to reflect actual listening ports.
         ports = set()
-        offset = 1 if self.flags.unix_socket_path else 0
+        # First listener is either the unix socket listener
+        # or the tcp listener bound to the primary port
+        offset = 1
         for index in range(offset, offset + len(self.flags.ports)):
             ports.add(
                 cast(
